@@ -3,6 +3,7 @@
 // streams); none of them reads c-ares internals.
 #include "exa_families.h"
 #include <algorithm>
+#include <set>
 #include <stdarg.h>
 
 namespace exa {
@@ -214,10 +215,629 @@ void oracle_c08_cache_end(World &w, const History &)
   for (auto &t : w.toks) c08_check_token(w, t);
 }
 
-void oracle_c09_failover(World &, const History &) {}
-void oracle_c12_search(World &, const History &) {}
-void oracle_c13_addrs(World &, const History &) {}
-void oracle_c17_cookie(World &, const History &) {}
+
+// first transmission index of the (single) wire query a simple request token started
+static int first_tx_of(const World &w, const Token &t)
+{
+  if (t.tx_at_issue < (int)w.txs.size() && t.tx_at_issue < t.tx_at_done + 1000000) return t.tx_at_issue;
+  return -1;
+}
+
+// ---------------------------------------------------------------------------
+// C09: failover policy, judged from the public server-state callback stream
+// ---------------------------------------------------------------------------
+void oracle_c09_failover(World &w, const History &h)
+{
+  bool servers_changed = false;
+  for (auto &e : h)
+    if (e.k == EV_SETSERVERS) servers_changed = true;
+  // user query ids: the family issues every question at most once, so the first query id seen with a question is the
+  // user's query; any other id asking the same question is a probe copy
+  std::set<unsigned>         user_q;
+  std::map<std::string, unsigned> first_q;
+  for (auto &t : w.txs) {
+    if (!t.q.ok || t.q.q.empty()) continue;
+    std::string k = vdns::lower(vdns::name_text(t.q.q[0].labels)) + "/" + std::to_string(t.q.q[0].qtype);
+    if (!first_q.count(k)) {
+      first_q[k] = t.q.id;
+      user_q.insert(t.q.id);
+    }
+  }
+  std::map<unsigned, int> ntx;
+  for (auto &t : w.txs)
+    if (t.q.ok) ntx[t.q.id]++;
+  int nsrv = w.cfg->nservers;
+  std::map<unsigned, int> prev_tx; // qid -> previous tx index
+  for (auto &t : w.txs) {
+    if (!t.q.ok || t.server < 0 || t.server >= 8) continue;
+    bool is_user = user_q.count(t.q.id) > 0;
+    int  best = 1 << 30;
+    for (int i = 0; i < nsrv; i++) best = std::min(best, t.ref_fail[i]);
+    if (is_user) {
+      // resends that stay on the same server by protocol: EDNS downgrade (FORMERR) and nothing else
+      bool same_server_resend = false;
+      auto pit = prev_tx.find(t.q.id);
+      if (pit != prev_tx.end()) {
+        const Transmission &pv = w.txs[(size_t)pit->second];
+        for (auto &p : w.packets)
+          if (!p.forged && p.for_tx == pv.id && p.t_read >= 0 && (p.kind == RK_FORMERR_NOOPT || p.kind == RK_FORMERR_OPT)) same_server_resend = true;
+      }
+      if (!servers_changed && !same_server_resend) {
+        if (t.ref_fail[t.server] != best)
+          w.violate("C09:selection:not-a-best-server",
+                    fmt("tx#%d of query id %u went to server %d with %d consecutive failures while a server with %d exists (failures by server: %d,%d,%d)", t.id, t.q.id,
+                        t.server, t.ref_fail[t.server], best, t.ref_fail[0], t.ref_fail[1], t.ref_fail[2]));
+        else if (!w.cfg->rotate) {
+          int first_best = -1;
+          for (int i = 0; i < nsrv && first_best < 0; i++)
+            if (t.ref_fail[i] == best) first_best = i;
+          if (t.server != first_best)
+            w.violate("C09:selection:not-first-in-configuration-order", fmt("tx#%d went to server %d but server %d is the first with the fewest failures (%d) and rotation is off", t.id, t.server, first_best, best));
+        } else
+          w.W("c09_rotate_choice");
+        w.W("c09_selection_checked");
+        if (t.server != 0) w.W("c09_failed_over");
+      }
+      prev_tx[t.q.id] = t.id;
+    } else {
+      // probe copy
+      w.W("c09_probe_seen");
+      if (ntx[t.q.id] > 1) w.violate("C09:probe:retried", fmt("probe query id %u was transmitted %d times", t.q.id, ntx[t.q.id]));
+      if (!servers_changed && t.ref_fail[t.server] == 0) w.violate("C09:probe:to-healthy-server", fmt("probe tx#%d went to server %d which has no failures", t.id, t.server));
+      if (w.cfg->retry_chance == 0) w.violate("C09:probe:sent-although-disabled", fmt("probe tx#%d sent although the retry chance is 0", t.id));
+      if (!servers_changed && t.t_us < t.last_fail_us[t.server] + (int64_t)w.cfg->retry_delay * 1000)
+        w.violate("C09:probe:before-retry-delay", fmt("probe tx#%d to server %d sent %lld ms after its last failure; retry delay is %d ms", t.id, t.server, (long long)((t.t_us - t.last_fail_us[t.server]) / 1000), w.cfg->retry_delay));
+      bool same_question = false;
+      for (auto &u : w.txs)
+        if (u.q.ok && user_q.count(u.q.id) && !u.q.q.empty() && !t.q.q.empty() && vdns::lower(vdns::name_text(u.q.q[0].labels)) == vdns::lower(vdns::name_text(t.q.q[0].labels)) && u.q.q[0].qtype == t.q.q[0].qtype)
+          same_question = true;
+      if (!same_question) w.violate("C09:probe:different-question", fmt("probe tx#%d asks a question no user query asked", t.id));
+    }
+  }
+  // success restores, failure demotes: the callback stream itself must be consistent with what the network saw
+  int n_succ = 0;
+  for (auto &ss : w.server_state)
+    if (ss.second) n_succ++;
+  int accepted = 0;
+  for (auto &p : w.packets)
+    if (!p.forged && p.t_read >= 0 && (p.rcode == vdns::RC_NOERROR || p.rcode == vdns::RC_NXDOMAIN) && !p.tc && p.kind != RK_MALFORMED && p.kind != RK_EMPTY) accepted++;
+  if (n_succ > accepted) w.violate("C09:state:success-without-accepted-reply", fmt("%d server successes were announced but only %d acceptable replies were read", n_succ, accepted));
+}
+
+// ---------------------------------------------------------------------------
+// C12: search list expansion (resolv.conf(5) semantics)
+// ---------------------------------------------------------------------------
+static size_t label_count(const std::string &n)
+{
+  size_t c = 1;
+  for (char ch : n)
+    if (ch == '.') c++;
+  if (!n.empty() && n.back() == '.') c--;
+  return c;
+}
+void oracle_c12_search(World &w, const History &)
+{
+  for (auto &t : w.toks) {
+    if (t.req < 0 || t.count == 0) continue;
+    const ReqSpec &r = (*w.reqs)[(size_t)t.req];
+    if (!(r.kind == 4 || r.kind == 5 || r.kind == 6 || r.kind == 7)) continue;
+    // ---- reference candidate list
+    std::vector<std::string> cand;
+    std::string              name = r.name;
+    size_t                   dots = 0;
+    for (char c : name)
+      if (c == '.') dots++;
+    std::string alias;
+    if (!w.cfg->hostaliases.empty() && !(w.cfg->flags & ARES_FLAG_NOALIASES) && dots == 0) {
+      // "alias target" lines
+      size_t pos = 0;
+      while (pos < w.cfg->hostaliases.size()) {
+        size_t      e    = w.cfg->hostaliases.find('\n', pos);
+        std::string line = w.cfg->hostaliases.substr(pos, e == std::string::npos ? std::string::npos : e - pos);
+        pos              = e == std::string::npos ? w.cfg->hostaliases.size() : e + 1;
+        size_t sp        = line.find(' ');
+        if (sp == std::string::npos) continue;
+        if (vdns::lower(line.substr(0, sp)) == vdns::lower(name) && alias.empty()) {
+          alias = line.substr(sp + 1);
+          while (!alias.empty() && alias[0] == ' ') alias.erase(0, 1);
+        }
+      }
+    }
+    if (!alias.empty()) cand.push_back(alias);
+    else if ((!name.empty() && name.back() == '.') || (w.cfg->flags & ARES_FLAG_NOSEARCH)) cand.push_back(name);
+    else {
+      bool first = dots >= (size_t)w.cfg->ndots;
+      if (first) cand.push_back(name);
+      for (auto &d : w.cfg->domains) cand.push_back(d == "." ? name + "." : name + "." + d);
+      if (!first) cand.push_back(name);
+    }
+    // ---- what the server saw for this request: distinct question names in order of first transmission,
+    //      with the outcome of each wire query (reply kind the library read before the request completed, -1 = silence)
+    std::vector<std::string>      seen;
+    std::vector<std::vector<int>> seen_ocs;
+    std::map<unsigned, int>       q_oc; // qid -> outcome
+    std::vector<unsigned>         q_order;
+    std::map<unsigned, std::string> q_name;
+    for (int i = t.tx_at_issue; i < t.tx_at_done && i < (int)w.txs.size(); i++) {
+      const Transmission &x = w.txs[(size_t)i];
+      if (!x.q.ok || x.q.q.empty()) continue;
+      if (!q_oc.count(x.q.id)) {
+        q_oc[x.q.id] = -1;
+        q_order.push_back(x.q.id);
+        q_name[x.q.id] = vdns::lower(vdns::name_text(x.q.q[0].labels));
+      }
+      for (auto &p : w.packets)
+        if (!p.forged && p.for_tx == x.id && p.seq_read >= 0 && p.seq_read < t.seq_done) q_oc[x.q.id] = p.kind;
+    }
+    size_t per_cand = (r.kind == 6 && r.family == AF_UNSPEC) ? 2 : 1; // getaddrinfo asks A and AAAA per candidate
+    for (unsigned q : q_order) {
+      if (seen.empty() || seen.back() != q_name[q] || seen_ocs.back().size() >= per_cand) {
+        seen.push_back(q_name[q]);
+        seen_ocs.push_back({});
+      }
+      seen_ocs.back().push_back(q_oc[q]);
+    }
+    // merge the outcomes of the (one or two) wire queries of a candidate; mixed classes are not judged
+    std::vector<int> seen_outcome;
+    bool             mixed = false;
+    auto             cls = [](int oc) {
+      if (oc == RK_DATA || oc == RK_DATA_MULTI || oc == RK_CNAME_DATA) return 0;
+      if (oc == RK_NODATA || oc == RK_NODATA_NOSOA || oc == RK_NXDOMAIN || oc == RK_NXDOMAIN_NOSOA) return 1;
+      if (oc == RK_SERVFAIL || oc == RK_REFUSED) return 2;
+      return 3; // silence
+    };
+    for (auto &v : seen_ocs) {
+      int m = v[0];
+      for (int oc : v) {
+        if (cls(oc) != cls(v[0])) mixed = true;
+        if (oc == RK_NODATA || oc == RK_NODATA_NOSOA) m = oc; // nodata on either family counts as nodata
+      }
+      seen_outcome.push_back(m);
+    }
+    if (mixed) {
+      w.W("obs_c12_mixed_outcomes_per_candidate");
+      continue;
+    }
+    // ---- walk the reference with the observed outcomes
+    size_t expect_n = 0;
+    int    exp_status = -1;
+    bool   nodata = false;
+    for (size_t i = 0; i < cand.size(); i++) {
+      expect_n = i + 1;
+      int oc   = i < seen_outcome.size() ? seen_outcome[i] : -1;
+      if (oc == RK_DATA || oc == RK_DATA_MULTI || oc == RK_CNAME_DATA) {
+        exp_status = ARES_SUCCESS;
+        break;
+      }
+      if (oc == RK_NODATA || oc == RK_NODATA_NOSOA) {
+        nodata     = true;
+        exp_status = ARES_ENODATA;
+        continue;
+      }
+      if (oc == RK_NXDOMAIN || oc == RK_NXDOMAIN_NOSOA) {
+        exp_status = ARES_ENOTFOUND;
+        continue;
+      }
+      if (oc == RK_SERVFAIL || oc == RK_REFUSED) {
+        exp_status = oc == RK_SERVFAIL ? ARES_ESERVFAIL : ARES_EREFUSED;
+        // documented exception (issue #852): a single-label candidate may be skipped over instead of ending the
+        // search; the statement itself says "stops at a hard error", so for single-label candidates both are accepted
+        if (label_count(cand[i]) == 1 && seen.size() > i + 1) continue;
+        break;
+      }
+      exp_status = ARES_ETIMEOUT; // silence: the candidate timed out, a hard error
+      break;
+    }
+    if (exp_status == ARES_ENOTFOUND && nodata) exp_status = ARES_ENODATA;
+    if (r.kind == 6 || r.kind == 7) {
+      // address lookups consult the hosts file / literals first and map statuses differently: only the name order is judged
+      if (w.cfg->lookups != "b") continue;
+    }
+    std::vector<std::string> expect;
+    for (size_t i = 0; i < expect_n && i < cand.size(); i++) expect.push_back(norm_name(cand[i]));
+    bool order_ok = seen.size() == expect.size();
+    for (size_t i = 0; order_ok && i < seen.size(); i++)
+      if (seen[i] != expect[i]) order_ok = false;
+    if (!order_ok) {
+      std::string a, b;
+      for (auto &x : seen) a += x + " ";
+      for (auto &x : expect) b += x + " ";
+      w.violate("C12:search:candidate-sequence", fmt("request '%s' (kind %d, ndots %d): server saw [ %s] but resolv.conf semantics prescribe [ %s]", r.name.c_str(), r.kind, w.cfg->ndots, a.c_str(), b.c_str()));
+    } else
+      w.W("c12_sequence_checked");
+    if (seen.size() > 1) w.W("c12_multi_candidate");
+    if ((r.kind == 4 || r.kind == 5) && exp_status >= 0 && t.status != exp_status && order_ok)
+      w.violate("C12:search:final-status", fmt("request '%s' (kind %d): final status %d, expected %d from the per-candidate outcomes", r.name.c_str(), r.kind, t.status, exp_status));
+  }
+}
+
+// ---------------------------------------------------------------------------
+// C13: address lookups return exactly the answered addresses
+// ---------------------------------------------------------------------------
+static std::string reverse_name(int fam, const std::string &text)
+{
+  unsigned char a[16];
+  char          b[128];
+  std::string   s;
+  if (fam == AF_INET) {
+    inet_pton(AF_INET, text.c_str(), a);
+    snprintf(b, sizeof b, "%u.%u.%u.%u.in-addr.arpa.", a[3], a[2], a[1], a[0]);
+    return b;
+  }
+  inet_pton(AF_INET6, text.c_str(), a);
+  for (int i = 15; i >= 0; i--) {
+    snprintf(b, sizeof b, "%x.%x.", a[i] & 15, a[i] >> 4);
+    s += b;
+  }
+  return s + "ip6.arpa.";
+}
+void oracle_c13_addrs(World &w, const History &)
+{
+  for (auto &t : w.toks) {
+    if (t.req < 0 || t.count == 0) continue;
+    const ReqSpec &r = (*w.reqs)[(size_t)t.req];
+    if (r.kind == 8 || r.kind == 9) {
+      // reverse lookups: exactly the reverse-map name is asked
+      std::string want = reverse_name(r.family, r.name);
+      for (int i = t.tx_at_issue; i < t.tx_at_done && i < (int)w.txs.size(); i++) {
+        const Transmission &x = w.txs[(size_t)i];
+        if (!x.q.ok || x.q.q.empty()) continue;
+        std::string qn = vdns::lower(vdns::name_text(x.q.q[0].labels));
+        if (qn != want || x.q.q[0].qtype != vdns::T_PTR)
+          w.violate("C13:reverse:wrong-question", fmt("reverse lookup of %s asked '%s' type %d, expected '%s' PTR", r.name.c_str(), qn.c_str(), x.q.q[0].qtype, want.c_str()));
+        else
+          w.W("c13_reverse_question_checked");
+      }
+      if (t.status == ARES_SUCCESS && !t.markers.empty()) {
+        const Packet *p = pkt(w, t.markers[0]);
+        if (!p || p->forged || p->t_read < 0) w.violate("C13:reverse:name-not-from-answer", fmt("reverse lookup of %s returned a name no answer carried", r.name.c_str()));
+      }
+      continue;
+    }
+    if (r.kind != 6 && r.kind != 7) continue;
+    if (t.status != ARES_SUCCESS) continue;
+    // ---- expected multiset
+    std::multiset<std::string> want, got;
+    bool                       from_dns = false;
+    // which packets answered this request: read, genuine, success, for transmissions made during the request
+    // the winning candidate is the last question name asked
+    std::string win;
+    for (int i = t.tx_at_issue; i < t.tx_at_done && i < (int)w.txs.size(); i++)
+      if (w.txs[(size_t)i].q.ok && !w.txs[(size_t)i].q.q.empty()) win = vdns::lower(vdns::name_text(w.txs[(size_t)i].q.q[0].labels));
+    for (auto &p : w.packets) {
+      if (p.forged || p.t_read < 0 || p.for_tx < t.tx_at_issue || p.for_tx >= t.tx_at_done) continue;
+      if (p.rcode != vdns::RC_NOERROR || p.tc || p.qname_lc != win) continue;
+      // accepted only if it was the reply to the latest transmission of its query on that socket (C05); the family sends no stale packets
+      for (auto &rr : p.rrs) {
+        int fam = rr.type == vdns::T_A ? AF_INET : rr.type == vdns::T_AAAA ? AF_INET6 : 0;
+        if (!fam || rr.cls != 1) continue;
+        if (r.family != AF_UNSPEC && fam != r.family) continue;
+        want.insert(fmt("%d/%d/%d/ttl%u", fam, p.serial, rr.idx, rr.ttl));
+        from_dns = true;
+      }
+    }
+    bool any_marker = false;
+    for (auto &a : t.addrs) {
+      if (a.serial) any_marker = true;
+      got.insert(a.serial ? fmt("%d/%d/%d/ttl%d", a.fam, a.serial, a.idx, r.kind == 7 ? -1 : a.ttl) : fmt("%d/raw:%s", a.fam, a.raw.c_str()));
+      if (r.family != AF_UNSPEC && a.fam != r.family)
+        w.violate("C13:family:other-family-returned", fmt("lookup of %s restricted to family %d returned an address of family %d (%s)", r.name.c_str(), r.family, a.fam, a.raw.c_str()));
+    }
+    if (!any_marker) {
+      // hosts file, literal or loopback rule
+      std::set<std::string> exp, have;
+      auto add = [&](const std::string &text) {
+        unsigned char a[16];
+        if (inet_pton(AF_INET, text.c_str(), a) == 1) {
+          if (r.family == AF_UNSPEC || r.family == AF_INET) exp.insert("2/raw:" + text);
+        } else if (inet_pton(AF_INET6, text.c_str(), a) == 1) {
+          if (r.family == AF_UNSPEC || r.family == AF_INET6) exp.insert("10/raw:" + vf::hex(a, 16));
+        }
+      };
+      unsigned char lit[16];
+      std::string   lname = vdns::lower(r.name);
+      bool          is_literal = inet_pton(AF_INET, r.name.c_str(), lit) == 1 || inet_pton(AF_INET6, r.name.c_str(), lit) == 1;
+      bool          is_localhost = lname == "localhost" || (lname.size() > 10 && lname.compare(lname.size() - 10, 10, ".localhost") == 0);
+      if (is_literal) add(r.name);
+      else {
+        // hosts file lines: "addr name [alias...]"
+        size_t pos = 0;
+        while (pos < w.cfg->hosts.size()) {
+          size_t      e    = w.cfg->hosts.find('\n', pos);
+          std::string line = w.cfg->hosts.substr(pos, e == std::string::npos ? std::string::npos : e - pos);
+          pos              = e == std::string::npos ? w.cfg->hosts.size() : e + 1;
+          std::vector<std::string> tok;
+          std::string              cur;
+          for (char ch : line + " ") {
+            if (ch == ' ' || ch == '\t') {
+              if (!cur.empty()) tok.push_back(cur);
+              cur.clear();
+            } else
+              cur += ch;
+          }
+          for (size_t i = 1; i < tok.size(); i++)
+            if (vdns::lower(tok[i]) == lname) add(tok[0]);
+        }
+        if (exp.empty() && is_localhost) {
+          add("127.0.0.1");
+          add("::1");
+        }
+      }
+      for (auto &a : t.addrs) have.insert(fmt("%d/raw:%s", a.fam, a.raw.c_str()));
+      if (is_localhost && !is_literal && w.cfg->hosts.find("localhost") == std::string::npos) {
+        // the loopback rule may return either or both loopback addresses of the requested family, never anything else
+        bool ok = !have.empty();
+        for (auto &x : have)
+          if (!exp.count(x)) ok = false;
+        if (!ok) w.violate("C13:loopback:unexpected-address", fmt("lookup of %s returned addresses outside the loopback rule", r.name.c_str()));
+        else w.W("c13_loopback_checked");
+      } else if (have != exp) {
+        std::string a, b;
+        for (auto &x : have) a += x + " ";
+        for (auto &x : exp) b += x + " ";
+        w.violate("C13:non-dns:set-mismatch", fmt("lookup of %s (family %d): returned { %s} but the hosts file / literal rule gives { %s}", r.name.c_str(), r.family, a.c_str(), b.c_str()));
+      } else
+        w.W("c13_non_dns_checked");
+      continue;
+    }
+    if (r.kind == 7) {
+      // hostent carries no TTLs
+      std::multiset<std::string> w2;
+      for (auto &x : want) w2.insert(x.substr(0, x.rfind('/')) + "/ttl-1");
+      want = w2;
+    }
+    (void)from_dns;
+    if (want != got) {
+      std::string a, b;
+      for (auto &x : got) a += x + " ";
+      for (auto &x : want) b += x + " ";
+      w.violate("C13:addresses:set-mismatch", fmt("lookup of %s (kind %d family %d flags %x): returned { %s} but the accepted answers for %s carry { %s} (family/packet/rr/ttl)", r.name.c_str(), r.kind, r.family, r.ai_flags, a.c_str(), win.c_str(), b.c_str()));
+    } else
+      w.W("c13_set_checked");
+    if (got.size() > 1) w.W("c13_multi_address");
+    // port
+    for (auto &a : t.addrs)
+      if (r.kind == 6 && !r.service.empty() && a.port != atoi(r.service.c_str()))
+        w.violate("C13:port:not-applied", fmt("service %s requested but address carries port %d", r.service.c_str(), a.port));
+    // NOSORT: order equals answer order (per packet rr index ascending, packets in arrival order of A then AAAA is not fixed: check per family)
+    if (r.kind == 6 && (r.ai_flags & ARES_AI_NOSORT)) {
+      std::map<std::pair<int, int>, int> last;
+      for (auto &a : t.addrs) {
+        auto k = std::make_pair(a.fam, a.serial);
+        if (last.count(k) && last[k] > a.idx) w.violate("C13:order:nosort-reordered", fmt("NOSORT lookup of %s returned records of packet %d out of answer order", r.name.c_str(), a.serial));
+        last[k] = a.idx;
+      }
+    }
+  }
+}
+
+// ---------------------------------------------------------------------------
+// C17: DNS cookie client automaton (RFC 7873), judged at the virtual network
+// ---------------------------------------------------------------------------
+// The transmission a packet is judged against: the latest transmission of the
+// same query id made before the packet was read. The library only looks at a
+// packet if it arrives on that transmission's descriptor (C05) while the query
+// is still outstanding; everything else is dropped unseen and teaches nothing.
+static const Transmission *current_tx_at_read(const World &w, const Packet &p)
+{
+  if (p.for_tx < 0 || p.seq_read < 0) return nullptr;
+  unsigned            qid = w.txs[(size_t)p.for_tx].q.id;
+  const Transmission *cur = nullptr;
+  for (auto &t : w.txs)
+    if (t.q.ok && t.q.id == qid && t.seq < p.seq_read) cur = &t;
+  return cur;
+}
+static bool query_alive_at(const World &w, unsigned qid, long seq)
+{
+  // single-query requests: the token whose first transmission carries this id
+  for (auto &t : w.toks) {
+    if (t.tx_at_issue < (int)w.txs.size() && t.tx_at_issue < t.tx_at_done + (t.count ? 0 : 1 << 30) && w.txs[(size_t)t.tx_at_issue].q.ok && w.txs[(size_t)t.tx_at_issue].q.id == qid)
+      return t.count == 0 || t.seq_done > seq;
+  }
+  return true;
+}
+static bool looked_at(const World &w, const Packet &p, const Transmission **cur_out)
+{
+  const Transmission *cur = current_tx_at_read(w, p);
+  if (cur_out) *cur_out = cur;
+  if (!cur || p.forged) return false;
+  if (cur->fd != p.on_fd) return false;
+  if (p.kind == RK_MALFORMED || p.kind == RK_EMPTY) return false;
+  return query_alive_at(w, cur->q.id, p.seq_read);
+}
+static bool has_valid_cookie(const Packet &p) { return p.kind == RK_CK_VALID || p.kind == RK_CK_VALID2 || p.kind == RK_BADCOOKIE; }
+static vdns::Bytes server_cookie_of(const Packet &p)
+{
+  return p.kind == RK_CK_VALID ? vdns::Bytes{ 'S', 'R', 'V', 'C', 'O', 'O', 'K', '1' } : vdns::Bytes{ 'S', 'R', 'V', 'C', 'O', 'O', 'K', '2' };
+}
+
+void oracle_c17_cookie(World &w, const History &h)
+{
+  (void)h;
+  struct Srv {
+    bool        have = false;      // a UDP transmission with a cookie was seen
+    vdns::Bytes client;            // client part of the latest such transmission
+    int         src = 0;
+    int64_t     client_since = 0;  // first use of this client part
+    vdns::Bytes server;            // latest valid server cookie learned for this client part
+    long        server_seq = -1;
+    bool        proven = false;    // support proven since the last reset
+    bool        cookieless_since = false; // a cookie-less reply was looked at since support was proven / ever
+    long        reset_seq = -1;    // order stamp of the last reset of the automaton (server deemed unsupported / regressed)
+  } S[8];
+  // packets the library looked at, in read order
+  std::vector<const Packet *> reads;
+  for (auto &p : w.packets)
+    if (p.seq_read >= 0) reads.push_back(&p);
+  std::sort(reads.begin(), reads.end(), [](const Packet *a, const Packet *b) { return a->seq_read < b->seq_read; });
+  size_t ri = 0;
+  std::map<unsigned, int> bad_resends;
+  std::map<unsigned, int> prev_of;
+  auto absorb = [&](const Packet &p) {
+    const Transmission *cur = nullptr;
+    if (!looked_at(w, p, &cur)) return;
+    int s = p.src_server;
+    if (s < 0 || s >= 8 || cur->tcp || !cur->q.has_cookie) return;
+    const Transmission &ptx = w.txs[(size_t)p.for_tx];
+    // the cookie option of the reply echoes the client part of the transmission it answers
+    bool client_matches_current = ptx.q.client_cookie == cur->q.client_cookie;
+    bool reply_has_cookie = (has_valid_cookie(p) || p.kind == RK_CK_WRONGCLIENT) && ptx.q.has_cookie;
+    if (reply_has_cookie && !(client_matches_current && p.kind != RK_CK_WRONGCLIENT)) return; // dropped as spoofed: teaches nothing
+    if (has_valid_cookie(p) && reply_has_cookie) {
+      if (ptx.seq < S[s].reset_seq) return; // answers a transmission from before the last reset: teaches nothing
+      S[s].proven           = true;
+      S[s].cookieless_since = false;
+      if (S[s].have && S[s].client == cur->q.client_cookie) {
+        S[s].server     = server_cookie_of(p);
+        S[s].server_seq = p.seq_read;
+      }
+    } else if (p.kind != RK_BADCOOKIE_BARE && !reply_has_cookie) {
+      S[s].cookieless_since = true;
+      if (!S[s].proven) S[s].reset_seq = p.seq_read; // never proven: the server is now treated as not supporting cookies
+    }
+  };
+  for (auto &t : w.txs) {
+    if (!t.q.ok || t.server < 0 || t.server >= 8) continue;
+    int s = t.server;
+    while (ri < reads.size() && reads[ri]->seq_read < t.seq) absorb(*reads[ri++]);
+    if (t.tcp) {
+      if (t.q.has_cookie) w.violate("C17:cookie:sent-over-tcp", fmt("tx#%d over TCP carries a cookie option", t.id));
+      else w.W("c17_tcp_without_cookie");
+      prev_of[t.q.id] = t.id;
+      continue;
+    }
+    // BADCOOKIE resend accounting: a UDP re-send that directly follows a looked-at BADCOOKIE reply to the previous transmission
+    auto pit = prev_of.find(t.q.id);
+    if (pit != prev_of.end() && !t.in_timer) {
+      bool by_bad = false;
+      for (auto &p : w.packets)
+        if (p.for_tx == pit->second && p.seq_read >= 0 && p.seq_read < t.seq && p.kind == RK_BADCOOKIE && looked_at(w, p, nullptr)) by_bad = true;
+      if (by_bad) {
+        int n = ++bad_resends[t.q.id];
+        w.W("c17_badcookie_resend");
+        if (n > 3) w.violate("C17:badcookie:more-than-three-udp-resends", fmt("query id %u was re-sent over UDP %d times because of BADCOOKIE replies", t.q.id, n));
+      }
+    }
+    prev_of[t.q.id] = t.id;
+    if (!t.q.has_opt) continue;
+    Srv &L = S[s];
+    if (!t.q.has_cookie) {
+      w.W("c17_udp_without_cookie");
+      if (L.proven && !L.cookieless_since)
+        w.violate("C17:cookie:omitted-although-support-proven", fmt("tx#%d to server %d carries no cookie although the server has proven support and never regressed", t.id, s));
+      continue;
+    }
+    int src = t.src_variant;
+    if (L.have) {
+      bool same_client = L.client == t.q.client_cookie;
+      bool src_changed = L.src != src;
+      if (src_changed && same_client) w.violate("C17:client-cookie:kept-after-source-address-change", fmt("tx#%d to server %d reuses the client cookie although the source address changed", t.id, s));
+      if (src_changed && !t.q.server_cookie.empty()) w.violate("C17:server-cookie:kept-after-source-address-change", fmt("tx#%d echoes a server cookie learned for another source address", t.id));
+      if (!src_changed && !same_client) {
+        // legal only after a rotation trigger: the client cookie is a day old, or the support state was reset
+        // (a cookie-less reply was looked at since support was last proven / before it ever was)
+        bool trigger = L.cookieless_since || (t.t_us - L.client_since >= 86400LL * 1000000);
+        if (!trigger)
+          w.violate("C17:client-cookie:changed-without-rotation-trigger", fmt("tx#%d to server %d carries a new client cookie (previous one first used %lld s ago), same source address, no cookie-less reply seen", t.id, s, (long long)((t.t_us - L.client_since) / 1000000)));
+        else
+          w.W("c17_client_cookie_rotated");
+      }
+      if (same_client && !src_changed) w.W("c17_client_cookie_constant");
+      if (!same_client || src_changed) {
+        bool aged = t.t_us - L.client_since >= 86400LL * 1000000;
+        L.client_since = t.t_us;
+        L.server.clear();
+        L.server_seq = -1;
+        // a rotation caused by a state reset (cookie-less replies -> regression / unsupported back-off) starts the
+        // automaton over; a rotation by age or source address keeps what is known about the server. When both
+        // could be the cause the model stays permissive (keeps the pending cookie-less observation).
+        if (!src_changed && L.cookieless_since && !aged) {
+          L.proven           = false;
+          L.cookieless_since = false;
+          L.reset_seq        = t.seq;
+        }
+        if (src_changed) w.W("c17_source_address_changed");
+      }
+    } else
+      L.client_since = t.t_us;
+    L.have   = true;
+    L.client = t.q.client_cookie;
+    L.src    = src;
+    // server part: empty or the latest valid one; present once learned for this client part
+    if (!t.q.server_cookie.empty() && t.q.server_cookie != L.server)
+      w.violate("C17:server-cookie:not-the-latest-valid", fmt("tx#%d echoes server cookie %s but the latest valid one is %s", t.id, vf::hex(t.q.server_cookie).c_str(), vf::hex(L.server).c_str()));
+    if (t.q.server_cookie.empty() && !L.server.empty() && !L.cookieless_since)
+      w.violate("C17:server-cookie:not-echoed", fmt("tx#%d omits the server cookie %s learned earlier for this client cookie", t.id, vf::hex(L.server).c_str()));
+    if (!t.q.server_cookie.empty()) w.W("c17_server_cookie_echoed");
+  }
+  // ---- acceptance side: replay the same automaton over the reads and judge each delivered packet
+  Srv A[8];
+  int64_t first_missing[8];
+  for (int i = 0; i < 8; i++) first_missing[i] = -1;
+  for (const Packet *pp : reads) {
+    const Packet       &p   = *pp;
+    const Transmission *cur = nullptr;
+    bool                seen = looked_at(w, p, &cur);
+    if (!seen) continue;
+    int s = p.src_server;
+    if (s < 0 || s >= 8) continue;
+    bool delivered = false;
+    for (auto &t : w.toks)
+      if (t.count && (std::find(t.markers.begin(), t.markers.end(), p.serial) != t.markers.end() || t.neg_marker == p.serial) && t.tx_at_done > t.tx_at_issue) delivered = true;
+    if (cur->tcp || !cur->q.has_cookie) continue; // no cookie in the current transmission: nothing to validate
+    const Transmission &ptx = w.txs[(size_t)p.for_tx];
+    bool echoes_current_client = ptx.q.has_cookie && ptx.q.client_cookie == cur->q.client_cookie && p.kind != RK_CK_WRONGCLIENT;
+    bool carries_cookie        = (has_valid_cookie(p) || p.kind == RK_CK_WRONGCLIENT) && ptx.q.has_cookie; // replies only echo a cookie the request carried
+    if (carries_cookie && !echoes_current_client) {
+      if (delivered) w.violate("C17:accept:wrong-client-cookie", fmt("packet #%d whose client cookie does not match the current transmission tx#%d was delivered", p.serial, cur->id));
+      else w.W("c17_wrong_client_dropped");
+      continue;
+    }
+    if (!carries_cookie && (has_valid_cookie(p) || p.kind == RK_CK_WRONGCLIENT) && p.kind != RK_BADCOOKIE) {
+      // reply to an earlier cookie-less transmission: a plain cookie-less answer (handled below)
+    }
+    if (p.kind == RK_BADCOOKIE || p.kind == RK_BADCOOKIE_BARE) {
+      if (delivered) w.violate("C17:accept:badcookie-delivered", fmt("BADCOOKIE packet #%d was delivered to a callback", p.serial));
+      if (p.kind == RK_BADCOOKIE) {
+        A[s].proven      = true;
+        first_missing[s] = -1;
+      }
+      continue;
+    }
+    if (has_valid_cookie(p) && carries_cookie) {
+      if (ptx.seq >= A[s].reset_seq) {
+        A[s].proven      = true;
+        first_missing[s] = -1;
+      }
+      if (delivered) w.W("c17_valid_cookie_accept");
+      continue;
+    }
+    // cookie-less (but otherwise acceptable) reply to a transmission that carried a cookie
+    if (A[s].proven) {
+      if (first_missing[s] < 0) {
+        first_missing[s] = p.t_read;
+        if (delivered)
+          w.violate("C17:accept:cookie-less-reply-after-support-proven", fmt("cookie-less packet #%d was delivered although server %d had proven cookie support (first such reply)", p.serial, s));
+        else
+          w.W("c17_cookieless_dropped");
+      } else if (delivered) {
+        if (p.t_read - first_missing[s] <= 0)
+          w.violate("C17:accept:cookie-less-reply-after-support-proven", fmt("cookie-less packet #%d was delivered although no time has passed since support regressed", p.serial));
+        else
+          w.W("c17_regression_accept");
+      }
+    } else {
+      // server never proved support: it must simply be used without cookies
+      bool rc_ok = p.rcode == vdns::RC_NOERROR || p.rcode == vdns::RC_NXDOMAIN;
+      if (!delivered && rc_ok && !p.tc && p.carries_data)
+        w.violate("C17:never-cookie-server:reply-not-delivered", fmt("server %d never returned a cookie, yet its plain reply packet #%d to the current transmission was not delivered", s, p.serial));
+      else if (delivered)
+        w.W("c17_never_cookie_server_served");
+      A[s].reset_seq = p.seq_read;
+    }
+  }
+}
+
 void oracle_c03_wire(World &, const History &) {}
 
 } // namespace exa
